@@ -51,6 +51,10 @@ func (p *RDP) Unmarshal(b []byte) (map[string]interface{}, error) {
 			return nil, fmt.Errorf("malformed line %d: %s", c, line)
 		}
 	}
+	if err := scanner.Err(); err != nil {
+		// e.g. a line longer than the scanner accepts: the rest of the file was not read
+		return nil, fmt.Errorf("cannot read line %d: %w", c+1, err)
+	}
 	return mp, nil
 }
 
